@@ -305,6 +305,7 @@ type vwPktDesc struct {
 	word0            uint32 // version 0, traffic class, flow id
 	l4               byte   // 0: UDP header built from the ports; otherwise next-header value of pld
 	pld              []byte
+	ptype            byte // path type; 0 stands for 1 (SCION)
 }
 
 func vwSerialize(p vwPktDesc) []byte {
@@ -333,6 +334,9 @@ func vwSerializeHdr(p vwPktDesc, b []byte, hdrLen int) {
 	b[5] = byte(hdrLen / 4)
 	b[6], b[7] = 0, vwPldLen
 	b[8] = 1 // SCION path
+	if p.ptype != 0 {
+		b[8] = p.ptype
+	}
 	b[9] = 0 // DT/DL/ST/SL: IPv4, IPv4
 	for i := 0; i < 8; i++ {
 		b[12+i] = byte(p.dstIA >> (56 - 8*i))
